@@ -163,6 +163,7 @@ type FuncSpec struct {
 	Opaque   bool // body not verified (trusted) for repo functions
 	Mutates  []string
 	Reveal   []string
+	Hide     []string // spec functions kept uninterpreted while verifying this function (even if defined in its package)
 	Asserts  map[int][]*Clause // ghost assertions after the N-th call (source order, builtins excluded)
 	Before   map[int][]*Clause // ghost assertions just before the N-th call
 	Cuts     map[int]bool      // "after call N cut:" everything learnt since entry is forgotten after these assertions
@@ -600,7 +601,7 @@ func parseExprString(src string) (e Expr, err error) {
 
 // ---------- file-level parsing ----------
 
-var declKeywords = map[string]bool{"before": true, "at": true, "sortspec": true, "after": true, "assert": true, "opaque": true, "reveal": true, "import": true, "ghost": true, "fun": true, "pred": true, "ufun": true,
+var declKeywords = map[string]bool{"hide": true, "before": true, "at": true, "sortspec": true, "after": true, "assert": true, "opaque": true, "reveal": true, "import": true, "ghost": true, "fun": true, "pred": true, "ufun": true,
 	"axiom": true, "func": true, "extern": true, "lemma": true, "requires": true, "ensures": true,
 	"modifies": true, "loop": true, "invariant": true, "pure": true, "free": true, "trusted": true, "mutates": true,
 	"package": true}
@@ -895,6 +896,15 @@ func (db *SpecDB) LoadSpecFile(path string, pkgPath string) error {
 			}
 			for _, f := range strings.Split(rest, ",") {
 				cur.Mutates = append(cur.Mutates, strings.TrimSpace(f))
+			}
+		case "hide":
+			if cur == nil {
+				return fail(ll, "hide outside func")
+			}
+			for _, f := range strings.Split(rest, ",") {
+				if f = strings.TrimSpace(f); f != "" {
+					cur.Hide = append(cur.Hide, f)
+				}
 			}
 		case "reveal":
 			for _, f := range strings.Split(rest, ",") {
